@@ -312,7 +312,7 @@ def gen_inputs(universe, thorough, seed):
             for stt in ["", "ok", "suspended", "deleted", "undef", "zzz"]:
                 add(st, "mut", BASES["acc"][0], "acc.user/status", [{"path": ["acc", "user"], "val": u}, {"path": ["acc", "status"], "val": stt}], dem="reply")
     # (a3) seeded random multi-field mutants: 1-3 random fields of a random well-formed message get random values of any JSON type
-    pool = [None, True, False, 0, 1, -1, 2**31, 2**53, -2**63, 1.5, "", "x", "zz", "me", "fnd", "sys", "new", "nch", "$GRP", "$CAROL", "$BOB", "$HUGE", " ", "␡",
+    pool = [None, True, False, 0, 1, -1, 2**31, 2**53, -2**63, 1.5, "", "x", "zz", "me", "fnd", "sys", "new", "nch", "$GRP", "$CAROL", "$BOB", "$HUGE", "\u0000", "␡",
             [], [1], ["x"], [[]], {}, {"a": 1}, {"what": "desc"}, {"mode": "JRWPS"}, {"user": "$CAROL"}, {"limit": -1}, {"low": 1, "hi": 0}, [{"low": 1, "hi": 2**31}],
             "desc sub data del tags cred", "topic", "msg", "sub", "user", "cred", "call", "read", "recv", "kp", "data", "ringing", "accept", "hang-up", "basic", "token", "code", "reset",
             "root", "auth", "anon", "JRWPASDO", "N", "text/x-drafty", {"txt": "x", "fmt": [{"at": -1, "len": 9, "key": 3}]}, b64(b"alice:pw"), b64(bytes(50))]
@@ -321,7 +321,7 @@ def gen_inputs(universe, thorough, seed):
         kind = rng.choice(kinds)
         base, _ = BASES[kind]
         st = rng.choice(STATES)
-        muts, wrong = [], False
+        muts, final = [], collections.OrderedDict()
         for _ in range(rng.randint(1, 3)):
             if rng.random() < 0.2:
                 fld = rng.choice(sorted(FIELDS["extra"]))
@@ -331,6 +331,9 @@ def gen_inputs(universe, thorough, seed):
                 path, ty = [kind, fld], FIELDS[kind][fld]
             val = rng.choice(pool)
             muts.append({"path": path, "val": val})
+            final[tuple(path)] = (val, ty)     # a later mutation of the same field wins
+        wrong = False
+        for val, ty in final.values():
             # does the Go decoder reject this value for this field type?  (null is always accepted)
             okv = val is None or ty == "a" or {
                 "s": isinstance(val, str), "i": isinstance(val, int) and not isinstance(val, bool), "b": isinstance(val, bool),
@@ -338,11 +341,11 @@ def gen_inputs(universe, thorough, seed):
                 "o": isinstance(val, dict), "O": isinstance(val, list) and all(isinstance(x, dict) for x in val), "m": isinstance(val, dict)}[ty]
             if ty == "y" and val is not None:
                 okv = None   # base64 or not, array of small numbers or not: do not predict
-            if ty in ("o", "O") and okv:
+            if ty in ("o", "O") and okv and val not in ({}, []):
                 okv = None   # nested fields have types of their own
             if okv is False:
                 wrong = True
-            elif okv is None and not wrong:
+            elif okv is None and wrong is False:
                 wrong = None
         if wrong is True:
             add(st, "mut", base, "random:%s:wrongtype" % kind, muts, dem="err", stage="pre")
